@@ -155,7 +155,9 @@ Read ==
           ELSE IF r.id = -2 THEN pc' = "garbage" /\ UNCHANGED <<pending, nrf, nrp, ropen, rbuf, rfoff>>
           ELSE /\ pending' = r.id
                /\ LET np == rp + enq[r.id] IN
-                  IF np > MaxFile
+                  \* deviation reader_roll_ge_behind: a reader that is behind the writer leaves a file whose
+                  \* records end exactly at the limit, although the writer put one more record into it
+                  IF np > MaxFile \/ (Mutant = "reader_roll_ge_behind" /\ rf < wf /\ np >= MaxFile)
                   THEN nrf' = rf + 1 /\ nrp' = 0 /\ ropen' = FALSE /\ rbuf' = <<>> /\ rfoff' = 0
                   ELSE nrf' = rf /\ nrp' = np /\ ropen' = TRUE /\ rbuf' = r.buf /\ rfoff' = r.off
                /\ pc' = "select"
